@@ -73,7 +73,7 @@ pub fn legs(prop: &str, tier: Tier) -> Vec<Leg> {
             if n {
                 vec![leg("box-n", "box", if q { 20_000 } else { 1_000_000 }, &["truncate", "garbage"]), leg("stream-n", "stream", if q { 10_000 } else { 500_000 }, &["truncate", "garbage"])]
             } else {
-                vec![leg("box", "box", if q { 60_000 } else { 3_000_000 }, &["truncate", "garbage", "extend", "splice"]), leg("stream", "stream", if q { 40_000 } else { 2_000_000 }, &["truncate", "garbage", "tx.any_tag_byte"])]
+                vec![leg("box", "box", if q { 60_000 } else { 3_000_000 }, &["truncate", "garbage", "extend", "splice"]), leg("stream", "stream", if q { 40_000 } else { 2_000_000 }, &["truncate", "garbage", "tx.any_tag_byte"]), leg("verifier", "verifier", if q { 30_000 } else { 1_500_000 }, &["truncate", "garbage", "flip", "seg.drop", "seg.dup", "seg.swap", "seg.empty", "char.replace", "num.replace", "verdict.accept", "verdict.reject"])]
             }
         }
         _ => vec![],
